@@ -14,6 +14,7 @@ void set_oid (string s) { }
 
 string str (int n, string c) { return repeat_string (c, n); }
 mapping mk (int from, int n) { mapping m = ([ ]); int i; for (i = 0; i < n; i++) m[from + i] = 1; return m; }
+mapping mkid (int from, int n) { mapping m = ([ ]); int i; for (i = 0; i < n; i++) m[from + i] = from + i; return m; }
 
 int sz_allocate (int n) { return sizeof (allocate (n)); }
 int sz_aggregate (int n) {
@@ -91,6 +92,7 @@ int sz_sprintf_pad (int w, int n) { return strlen (sprintf ("%*s", w, str (n, "x
 // count bookkeeping across partially applied operations: a sequence of inserts and in-place `m += m2` on one
 // mapping, every operation inside catch; returns "<k|e per op>:<sizeof (m)>/<nodes reached by iteration>"
 // ops (comma separated):  i<key><n|o>   insert key (new / old)      a<from>:<n>:<new>   m += ([ from .. from+n-1 ])
+//                         c<lo>:<n>:<kept>  m *= ([ lo .. lo+n-1 ])     cs:<kept>  m *= m     (values are the keys)
 mapping gm;
 string mapseq (string ops) {
   string res = ""; string op; int n = 0; mixed k, v;
@@ -99,10 +101,15 @@ string mapseq (string ops) {
     mixed e;
     if (op[0] == 'i') {
       int key = to_int (op[1..<2]);
-      e = catch (gm[key] = 1);
+      e = catch (gm[key] = key);
+    } else if (op[0] == 'c') {
+      // c<lo>:<n>:<kept>  gm *= ([ lo .. lo+n-1 ])     cs:<kept>  gm *= gm   (every value of gm is its key)
+      string *w = explode (op[1..], ":");
+      if (w[0] == "s") e = catch (gm *= gm);
+      else { mapping m2 = mkid (to_int (w[0]), to_int (w[1])); e = catch (gm *= m2); }   // (identity values: the kept nodes keep value = key)
     } else {
       string *w = explode (op[1..], ":");
-      mapping m2 = mk (to_int (w[0]), to_int (w[1]));
+      mapping m2 = mkid (to_int (w[0]), to_int (w[1]));
       e = catch (gm += m2);
     }
     res += e ? "e" : "k";
@@ -116,11 +123,11 @@ int sz_filter_mapping (int n, int kept) { return sizeof (filter_mapping (mk (0, 
 int sz_map_mapping (int n) { return sizeof (map_mapping (mk (0, n), "ident2", this_object ())); }
 
 // ---- round 4: the efuns that were on the NOT ANALYSED list, and mapping * mapping
-mapping mkid (int from, int n) { mapping m = ([ ]); int i; for (i = 0; i < n; i++) m[from + i] = from + i; return m; }
 // what sizeof () says against what an iteration finds (a `mismatch` line is a verdict of the oracle)
+int cnt (mapping m) { int n = 0; mixed k, v; foreach (k, v in m) n++; return n; }
 int chk (mapping m) {
-  int n = 0; mixed k, v;
-  foreach (k, v in m) n++;
+  int n;
+  if (catch (n = cnt (m))) return sizeof (m);   // (the iteration needs an array of the keys: not possible above MaxArraySize)
   if (n != sizeof (m)) VL ("mismatch sizeof=" + sizeof (m) + " nodes=" + n);
   return sizeof (m);
 }
